@@ -93,6 +93,8 @@ async def endpoint_case(events) -> dict | None:
             break
         except OSError as e:
             got.append(("E", e.errno))
+        except Exception as e:  # anything else (e.g. the adapter's own assertion) is an observable outcome, not a driver crash
+            got.append(("X", type(e).__name__))
     if got != want:
         return {"got": repr(got), "want": repr(want), "rule": "datagrams and errors come out one per receive, in arrival order (C05)"}
     return None
